@@ -40,6 +40,14 @@ fn main() {
         std::panic::set_hook(Box::new(|_| {}));
     }
     let mut out = std::fs::OpenOptions::new().create(true).append(true).open(&args[2]).unwrap();
+    {
+        let path = args[2].clone();
+        *loomverif::run::BEAT.lock().unwrap() = Some(Box::new(move |n| {
+            if let Ok(mut f) = std::fs::OpenOptions::new().append(true).open(&path) {
+                let _ = writeln!(f, "{{\"beat\":{}}}", n);
+            }
+        }));
+    }
     if pairs {
         let items = std::sync::Arc::new(items);
         let mut k = 0;
